@@ -550,6 +550,45 @@ fn main() {
         "data" => {
             // C06: interleavings of write/append/line helpers/copy/move over four files, reading back after every step
             let files = ["/f", "/g", "/d/h", "/d/i"];
+            // directed: how the file a handle is opened on CAME to be at its path - created there, moved there, copied there, and
+            // every two-step combination of the two - x {write, append} handle x {flush, drop only}; everything is read back after
+            // each step (a handle belongs to the path it was opened on, whatever history the bytes at that path have)
+            if worker == 0 {
+                let provs: [&[(&str, &str, &str)]; 7] = [
+                    &[],
+                    &[("move_p", "/f", "/g")],
+                    &[("copy", "/f", "/g")],
+                    &[("move_p", "/f", "/d/h"), ("copy", "/d/h", "/g")],
+                    &[("copy", "/f", "/d/h"), ("move_p", "/d/h", "/g")],
+                    &[("move_p", "/f", "/d/h"), ("move_p", "/d/h", "/g")],
+                    &[("copy", "/f", "/d/h"), ("copy", "/d/h", "/g")],
+                ];
+                for prov in provs {
+                    for append in [false, true] {
+                        for flush in [false, true] {
+                            let mut ch = Chain::new(route_enum);
+                            id += 1;
+                            ch.step(&prog, id, call("mkdir_p", "/d", ""));
+                            ch.step(&prog, id, call_d("write_all", "/f", b"origin"));
+                            let mut at = "/f";
+                            for (op, a, b) in prov.iter() {
+                                ch.step(&prog, id, call(op, a, b));
+                                at = b;
+                            }
+                            ch.handle_op(&prog, id, "h_open", 0, at, &[], append);
+                            ch.handle_op(&prog, id, "h_write", 0, at, b"NEW", append);
+                            if flush {
+                                ch.handle_op(&prog, id, "h_flush", 0, at, &[], append);
+                            }
+                            ch.handle_op(&prog, id, "h_drop", 0, at, &[], append);
+                            for f in files {
+                                ch.step(&prog, id, call("read_all", f, ""));
+                            }
+                            ch.finish(&mut out, &route);
+                        }
+                    }
+                }
+            }
             for h in 0..n {
                 if h % workers != worker {
                     continue;
